@@ -3,7 +3,7 @@
    skipped (no effect on the modelled state): updatetime = 2; h5save = opts.getSavePhaseSpace(); outstepnr = 0; simulationstep = 0
    local constants replaced by their (pure) initialisers: none *)
 From Coq Require Import List ZArith String.
-From Inovesa Require Import Model.Driver Model.Setup.
+From Inovesa Require Import Model.Driver Model.Setup Model.Observers.
 Import ListNotations.
 Local Open Scope Z_scope.
 Definition main_pre : blk :=
@@ -195,36 +195,65 @@ Definition main_setup : sblk :=
   (SOpq 148
   (SCall (Point (-5))
   (SOpq 169
+  (SOpq 182
+  (SOpq 183
   (SCall (Point (-6))
   (SOpq 256
-  (SIf (COpq 283)
-    (SOpq 284
-    (SReturn 0))
-    (SDone)
-  (SOpq 290
   (SCall (Point (-7))
-  (SOpq 377
+  (SOpq 368
+  (SIf (COpq 387)
+    (SOpq 393
+    (SIf (COpq 405)
+      (SOpq 406
+      (SOpq 407
+      (SOpq 408
+      (SOpq 410
+      (SOpq 413
+      (SOpq 414
+      (SOpq 415
+      (SOpq 417
+      (SOpq 418
+      (SOpq 419
+      (SOpq 424
+      (SOpq 426
+      (SOpq 427
+      (SOpq 428
+      (SDone)))))))))))))))
+      (SDone)
+    (SDone)))
+    (SDone)
+  (SIf (COpq 433)
+    (SOpq 434
+    (SOpq 435
+    (SOpq 439
+    (SOpq 442
+    (SOpq 443
+    (SOpq 444
+    (SOpq 446
+    (SOpq 458
+    (SDone)))))))))
+    (SDone)
   (SCall (Point (-8))
-  (SOpq 480
-  (SIf (COpq 490)
-    (SOpq 499
+  (SOpq 471
+  (SIf (COpq 481)
+    (SOpq 490
     (SDone))
-    (SOpq 508
-    (SIf (COpq 524)
-      (SOpq 526
-      (SIf (COpq 531)
-        (SOpq 532
+    (SOpq 499
+    (SIf (COpq 515)
+      (SOpq 517
+      (SIf (COpq 522)
+        (SOpq 523
         (SReturn 0))
         (SDone)
-      (SIf (COpq 535)
-        (SOpq 536
+      (SIf (COpq 526)
+        (SOpq 527
         (SReturn 0))
         (SDone)
       (SDone))))
-      (SIf (COpq 542)
-        (SOpq 543
+      (SIf (COpq 533)
+        (SOpq 534
         (SDone))
-        (SOpq 548
+        (SOpq 539
         (SReturn 0))
       (SDone))
     (SDone)))
@@ -235,81 +264,136 @@ Definition main_setup : sblk :=
     (SDone)))
     (SDone)
   (SCall (Point (-10))
-  (SOpq 562
+  (SOpq 553
   (SCall (Point (-11))
-  (SOpq 567
+  (SOpq 558
+  (SIf (COpq 565)
+    (SOpq 566
+    (SOpq 567
+    (SOpq 568
+    (SDone))))
+    (SDone)
   (SCall (Point (-12))
-  (SOpq 624
+  (SOpq 615
   (SCall (Point (-13))
-  (SOpq 683
+  (SOpq 674
   (SCall (Point (-14))
-  (SOpq 709
+  (SOpq 700
   (SCall (Point (-15))
-  (SOpq 715
-  (SIf (COpq 719)
-    (SOpq 721
-    (SIf (COpq 722)
-      (SOpq 724
+  (SOpq 706
+  (SIf (COpq 710)
+    (SOpq 712
+    (SIf (COpq 713)
+      (SOpq 715
       (SReturn 0))
       (SDone)
-    (SOpq 729
+    (SOpq 720
     (SDone))))
-    (SOpq 747
+    (SOpq 738
     (SDone))
   (SCall (Point (-16))
-  (SOpq 759
+  (SOpq 750
   (SCall (Point (-17))
-  (SOpq 767
+  (SOpq 758
   (SCall (Point (-18))
-  (SOpq 776
+  (SOpq 767
   (SCall (Point (-19))
-  (SOpq 786
+  (SOpq 777
   (SCall (Point (-20))
-  (SOpq 816
+  (SOpq 807
   (SCall (Point (-21))
   (SCall (Point (-22))
-  (SOpq 893
-  (SIf (COpq 894)
-    (SOpq 896
+  (SOpq 884
+  (SIf (COpq 885)
+    (SOpq 887
     (SCall (Point (-23))
     (STry
-      (SOpq 900
+      (SOpq 891
       (SCall (Point (-24))
-      (SOpq 903
+      (SOpq 894
       (SCall (Point (-25))
-      (SOpq 906
+      (SOpq 897
       (SCall (Point (-26))
       (SDone)))))))
-      (SOpq 915
+      (SOpq 906
       (SSetAbort
       (SDone)))
     (SDone))))
-    (SIf (COpq 928)
-      (SOpq 929
+    (SIf (COpq 919)
+      (SOpq 920
       (SDone))
-      (SOpq 931
+      (SOpq 922
       (SReturn 0))
     (SDone))
   (SCall (Point (-27))
-  (SOpq 937
-  (SDone)))))))))))))))))))))))))))))))))))))))))))))))))))).
+  (SOpq 928
+  (SDone))))))))))))))))))))))))))))))))))))))))))))))))))))))).
 (* opaque conditions of the set-up: (n, text) *)
 Definition setup_conds : list (Z * string) :=
   [(96, "!opts.parse(argc, argv)"%string);
    (112, "ofname.empty() && !opts.getForceRun()"%string);
-   (283, "nbunches == 0"%string);
-   (490, "startdistfile.empty()"%string);
-   (524, "isOfFileType('.h5', startdistfile) || isOfFileType('.hdf5', startdistfile)"%string);
-   (531, "grid_t1 == nullptr"%string);
-   (535, "nx != ps_bins"%string);
-   (542, "isOfFileType('.txt', startdistfile)"%string);
-   (719, "e1 > 0"%string);
-   (722, "derivationtype == cubic && !(zerobin >= 1 && zerobin <= ps_bins - 2)"%string);
-   (894, "isOfFileType('.h5', ofname) || isOfFileType('.hdf5', ofname)"%string);
-   (928, "ofname.empty()"%string)].
+   (387, "fpclassify(gap) == 2"%string);
+   (405, "verbose && use_csr"%string);
+   (433, "verbose"%string);
+   (481, "startdistfile.empty()"%string);
+   (515, "isOfFileType('.h5', startdistfile) || isOfFileType('.hdf5', startdistfile)"%string);
+   (522, "grid_t1 == nullptr"%string);
+   (526, "nx != ps_bins"%string);
+   (533, "isOfFileType('.txt', startdistfile)"%string);
+   (565, "verbose"%string);
+   (710, "e1 > 0"%string);
+   (713, "derivationtype == cubic && !(zerobin >= 1 && zerobin <= ps_bins - 2)"%string);
+   (885, "isOfFileType('.h5', ofname) || isOfFileType('.hdf5', ofname)"%string);
+   (919, "ofname.empty()"%string)].
 (* opaque statements of the set-up: (n, number of consecutive statements merged into it) *)
 Definition setup_opaque : list (Z * Z) :=
-  [(94, 1); (100, 1); (109, 1); (120, 1); (131, 2); (148, 1); (169, 38); (256, 6); (284, 1); (290, 33); (377, 5); (480, 1); (499, 3); (508, 1); (526, 1); (532, 1); (536, 1); (543, 1); (548, 1); (562, 2); (567, 3); (624, 3); (683, 9); (709, 1); (715, 2); (721, 1); (724, 1); (729, 9); (747, 2); (759, 2); (767, 2); (776, 1); (786, 4); (816, 2); (893, 1); (896, 2); (900, 1); (903, 2); (906, 2); (915, 1); (929, 1); (931, 1); (937, 1)].
+  [(94, 1); (100, 1); (109, 1); (120, 1); (131, 2); (148, 1); (169, 5); (182, 1); (183, 32); (256, 39); (368, 4); (393, 4); (406, 1); (407, 1); (408, 1); (410, 1); (413, 1); (414, 1); (415, 1); (417, 1); (418, 1); (419, 1); (424, 1); (426, 1); (427, 1); (428, 1); (434, 1); (435, 1); (439, 1); (442, 1); (443, 1); (444, 1); (446, 1); (458, 1); (471, 1); (490, 3); (499, 1); (517, 1); (523, 1); (527, 1); (534, 1); (539, 1); (553, 2); (558, 2); (566, 1); (567, 1); (568, 1); (615, 3); (674, 9); (700, 1); (706, 2); (712, 1); (715, 1); (720, 9); (738, 2); (750, 2); (758, 2); (767, 1); (777, 4); (807, 2); (884, 1); (887, 2); (891, 1); (894, 2); (897, 2); (906, 1); (920, 1); (922, 1); (928, 1)].
+(* observer options (verbosity): variables of main() initialised by opts.getVerbosity() *)
+Definition observer_vars : list string :=
+  ["verbose"%string].
+(* opaque conditions of the set-up that read an observer option *)
+Definition setup_observer_conds : list Z :=
+  [405; 433; 565].
+(* opaque statements / conditions of the set-up the translator found pure (only const member functions of objects declared outside,
+   writes to log sinks, block-local and report-only variables): everything under an observer guard has to be in this list *)
+Definition setup_pure_opaque : list Z :=
+  [182; 405; 406; 407; 408; 410; 413; 414; 415; 417; 418; 419; 424; 426; 427; 428; 433; 434; 435; 439; 442; 443; 444; 446; 458; 565; 566; 567; 568].
+(* what the statements / conditions under an observer guard of the set-up do: (n, effects) *)
+Definition setup_observed_effects : list (Z * list oeff) :=
+  [(405, []);
+   (406, []);
+   (407, []);
+   (408, []);
+   (410, []);
+   (413, []);
+   (414, []);
+   (415, []);
+   (417, []);
+   (418, []);
+   (419, []);
+   (424, []);
+   (426, []);
+   (427, []);
+   (428, []);
+   (433, []);
+   (434, []);
+   (435, []);
+   (439, []);
+   (442, []);
+   (443, []);
+   (444, []);
+   (446, [OConst "opts"%string "getStepsPerTrev"%string]);
+   (458, []);
+   (565, []);
+   (566, []);
+   (567, []);
+   (568, [])].
+(* variables assigned under an observer guard whose every use only reports (log, /Info attribute, other such variables) *)
+Definition report_only_vars : list string :=
+  ["shield"%string].
+(* observer-guarded statements of the simulation part (NOT part of main_prog): line, condition, effects *)
+Definition loop_observers : list ostmt :=
+  [].
 (* VERIF_POINT labels of the translated part, index = argument of Point *)
 Definition point_names : list (Z * string) :=
   [(0, "sim:start"%string);
@@ -373,7 +457,7 @@ Definition setup_point_names : list string :=
   ["setup:handler_installed"%string; "setup:options_parsed"%string; "setup:nothing_to_do_passed"%string; "setup:display_made"%string; "setup:device_chosen"%string; "setup:machine_parameters"%string; "setup:scaling_done"%string; "setup:parameters_reported"%string; "setup:grid_made"%string; "setup:initial_renormalisation"%string; "setup:grids_copied"%string; "setup:before_rf"%string; "setup:rf_made"%string; "setup:before_drift"%string; "setup:drift_made"%string; "setup:fp_made"%string; "setup:wake_impedance"%string; "setup:rdtn_impedance"%string; "setup:rdtn_field"%string; "setup:wake_made"%string; "setup:tracking_loaded"%string; "setup:before_file"%string; "setup:config_saved"%string; "setup:file_created"%string; "setup:options_in_file"%string; "setup:file_parameters"%string; "setup:outputs_ready"%string].
 (* every reference to Display::abort in main(): (source line, is a write, lies in the translated part) *)
 Definition abort_refs : list (Z * bool * bool) :=
-  [(917, true, false); (1012, false, true); (1228, false, true)].
+  [(908, true, false); (1003, false, true); (1219, false, true)].
 (* every write of Display::abort outside main.cpp (each one is `abort = true`; anything else fails the translation) *)
 Definition abort_writes_elsewhere : list (string * Z) :=
   [("inc/IO/Display.hpp"%string, 115); ("src/IO/Display.cpp"%string, 134)].
